@@ -18,7 +18,7 @@ import z3
 from .sym import *
 from . import contracts_dwt as CD, verify, solve, prims, specs, front
 from .solve import Ob
-from .interp import Interp, explore, SObj, RepoClass
+from .interp import Cont, Brk, Interp, explore, SObj, RepoClass
 from .prims import SList
 from .specbk import SymBk as bk
 
@@ -65,7 +65,12 @@ def fwd_level_rule(side, tvar, lvar, spatial, Jsym, region=None):
         env[lvar] = pre
         it.assign(node.target, j, env)
         before = {k: v for k, v in env.items()}
-        it.run(node.body, env)
+        try:
+            it.run(node.body, env)
+        except Cont:
+            pass                     # `continue`: the generic iteration simply ends here
+        except Brk:
+            raise Unsupported('break inside a loop verified by invariant')
         side.rec.append(('step', A, env[tvar], env[lvar], pre,
                          [k for k in env if k in before and env[k] is not before[k] and k not in (tvar, lvar)]))
         dims2 = _fresh_dims('m', spatial)
@@ -101,7 +106,12 @@ def inv_level_rule(side, tvar, itemvar, spatial, Jsym, item_rank, region=None):
             if region:
                 region(R, D)
         it.assign(node.target, D, env)
-        it.run(node.body, env)
+        try:
+            it.run(node.body, env)
+        except Cont:
+            pass                     # `continue`: the generic iteration simply ends here
+        except Brk:
+            raise Unsupported('break inside a loop verified by invariant')
         side.rec.append(('step-inv', R, D, env[tvar]))
         dims2 = _fresh_dims('m', spatial)
         R0 = CD.data_tensor('R0', tuple(T0.shape[:2]) + tuple(dims2))
